@@ -48,17 +48,21 @@ CLAIMED['C13'] = dict(
     design='5/C13')
 
 CLAIMED['C07'] = dict(
-    text='Machine-checked proof (Coq 8.16.1): executable model of the command path (incoming FIFO, relay thread with '
-         'try_again_on_error, per-trace FIFO queues created/deleted at trace start/end, the prompt() loop discarding '
-         'mismatching prompt numbers, run-unique prompt counter); labels interleave Send/Relay/StartTrace/EndTrace/OpenPrompt/Take '
-         'arbitrarily. Theorems for every label sequence: the command closing prompt (t,p) is a sent command addressed to '
-         'exactly (t,p), executed at most once; already-answered / other-trace / non-existent-prompt commands are never executed; '
-         'deleting never-executed commands leaves every other step unchanged. The clause "a FUTURE-addressed command is discarded" '
-         'is REFUTED (C07_decoys_discarded_refuted, witness replayed on the real code: known finding) and proved under the '
-         'arrival-time hypothesis. Tie: real spawned.main with a decoy-injecting responder vs the model (vm_compute).',
-    note='Trusted: Coq kernel; harness (responder, linearisation by prompt counter). Modelled: queue.Queue FIFO/thread-safe; '
-         'Pdb executes the string the prompt function returns. One recorded known finding (future-command-executed). No axioms.',
-    technique='Coq invariant proofs over an interleaving LTS model; refuted clause with vm_compute witness; differential correspondence',
+    text='Machine-checked proof (Coq 8.16.1): executable model of the command path at two levels. CHILD: incoming FIFO, relay thread with '
+         'try_again_on_error, per-trace FIFO queues created/deleted at trace start/end, the prompt() loop discarding mismatching prompt '
+         'numbers, run-unique prompt counter; labels interleave Send/Relay/StartTrace/EndTrace/OpenPrompt/Take arbitrarily. SYSTEM '
+         '(Prompt/System.v): the child composed with the FIFO event channel to the main process and the main-side filter (commands are '
+         'forwarded only for prompts main has seen open). Theorems for every label sequence: the command closing prompt (t,p) is a sent '
+         'command addressed to exactly (t,p), executed at most once; a relayed genuine answer is executed after exactly the commands in '
+         'front of it are discarded (delivery, with frame condition and step bound); at SYSTEM level every command sent for a prompt that '
+         'is not open in the child when it would be executed -- already answered, not yet issued, wrong or unknown trace -- is dropped or '
+         'discarded, never executed (C07_system_decoys_discarded, full strength; the child-level refutation of the future-command clause '
+         'is kept as "child level only"). Tie: real spawned.main with a decoy-injecting responder vs the child model; the real Nextline '
+         '(public API, subprocess) vs the composed model; the three code facts of the filter pinned by a fail-closed ast translator.',
+    note='Trusted: Coq kernel; harness (responder, linearisation by prompt counter; system runner). Modelled: queue.Queue FIFO/thread-safe; '
+         'Pdb executes the string the prompt function returns; the event channel child->main is FIFO. The former known finding '
+         '(future-command-executed) is repaired (5be87b5). No axioms.',
+    technique='Coq invariant proofs over an interleaving LTS (child) and its composition with the main-side filter; differential correspondence at child and system level; ast tie obligation',
     design='5/C07')
 CLAIMED['C06'] = dict(
     text='Machine-checked proof (Coq 8.16.1): model of TaskAndThreadKeeper / ThreadTaskIdComposer / TaskOrThreadToTraceMapper '
